@@ -50,13 +50,23 @@ class DiskEnv:
     def ns(self):
         return "%s-w%d-%d" % (self.ctx.pid.lower(), self.ctx.worker, next(self._ns))
 
+    def duplicate_minimal_example(self):
+        """Hypothesis starts every worker with the same minimal example; with seconds per scenario that is worth
+        skipping on all workers but the first.  True exactly for the first execute() call of workers > 0
+        (committed replays and --replay run on worker 0 only)."""
+        first = not getattr(self, "_called", False)
+        self._called = True
+        return first and self.ctx.worker > 0
+
     def url(self, path):
         return "http://127.0.0.1:%d%s" % (self.origin.port, path)
 
     # ---- instances
-    def new_squid(self, cache_dir, conf="", cache_mem="0", workers=0, ports=1, extra_env=None, debug="ALL,1", started=True, timeout=90):
+    def new_squid(self, cache_dir, conf="", cache_mem="0", workers=0, ports=1, extra_env=None, debug="ALL,1", started=True, timeout=90,
+                  create=True):
         """A prepared instance whose cache_dir exists (copied from a template made by `squid -z` once).
-        Returned started (waits for the listening ports) unless started=False."""
+        Returned started (waits for the listening ports) unless started=False.
+        create=False: the caller provides the cache directory itself (sq.cache_sub) before starting."""
         self.clock.offset = 0.0
         sq = squidproc.Squid("%s-w%d" % (self.ctx.pid, self.ctx.worker), conf=BASE_DISK_CONF + conf, cache_mem=cache_mem,
                              cache_dirs=[cache_dir], clock=self.clock, workers=workers, ports=ports, debug=debug)
@@ -65,7 +75,9 @@ class DiskEnv:
         key = cache_dir + "|%d" % workers
         sub = cache_dir.split()[1].format(run="").lstrip("/")      # directory name below {run}
         tmpl = self.templates.get(key)
-        if tmpl is None:
+        if not create:
+            pass
+        elif tmpl is None:
             sq.create_dirs()
             os.makedirs(self.tmpl_root, exist_ok=True)
             tmpl = os.path.join(self.tmpl_root, "t%d" % len(self.templates))
@@ -96,16 +108,16 @@ class DiskEnv:
 
 
 # ---------------------------------------------------------------------- requests
-def get(env, port, path, headers=(), method="GET", timeout=20.0):
+def get(env, port, path, headers=(), method="GET", timeout=20.0, url=None):
     try:
-        return client.simple_get(port, env.url(path), headers=list(headers), method=method, timeout=timeout)
+        return client.simple_get(port, url or env.url(path), headers=list(headers), method=method, timeout=timeout)
     except OSError:
         return None
 
 
-def oic(env, port, path, timeout=20.0):
+def oic(env, port, path, timeout=20.0, url=None):
     """only-if-cached probe: 200 = hit, 504 = miss.  -> Message or None"""
-    return get(env, port, path, [("Cache-Control", "only-if-cached")], timeout=timeout)
+    return get(env, port, path, [("Cache-Control", "only-if-cached")], timeout=timeout, url=url)
 
 
 def judged(m):
@@ -127,19 +139,30 @@ class Content:
     def path(self, u):
         return "/%s/u%d" % (self.prefix, u)
 
-    def set_next(self, u, size):
+    def set_next(self, u, size, extra=None):
+        """The next arrival for URL u is answered with a new version of `size` body bytes; `extra` adds origin
+        behaviour keys (segments, pause_ms, ...) to that and later answers."""
         p = self.path(u)
         first = p not in self.next_size
         self.next_size[p] = int(size)
+        if not hasattr(self, "next_extra"):
+            self.next_extra = {}
+        self.next_extra[p] = dict(extra or {})
         if first:
             self.served[p] = {}
 
             def beh(arr, p=p):
                 n = self.next_size[p]
                 self.served[p][arr.index] = n
-                return {"status": 200, "headers": [["Cache-Control", "max-age=%d" % MAX_AGE], ["X-Version", str(arr.index)]],
-                        "body_tag": "%s#%d" % (p, arr.index), "body_len": n}
+                b = {"status": 200, "headers": [["Cache-Control", "max-age=%d" % MAX_AGE], ["X-Version", str(arr.index)]],
+                     "body_tag": "%s#%d" % (p, arr.index), "body_len": n}
+                b.update(self.next_extra.get(p, {}))
+                return b
             self.env.origin.script(p, beh)
+
+    def all_versions(self, u):
+        """Indices of all versions the origin started to send (complete or still in progress)."""
+        return sorted(self.served.get(self.path(u), {}))
 
     def arrivals(self, u):
         return self.env.origin.arrival_count(self.path(u))
